@@ -442,7 +442,7 @@ impl GraphStore {
 //@atstart
         proof { axiom_pair_clone(); axiom_vec_len(&self.edge_endpoints); }
         let ghost popped = old(self).free_edge_ids@.len() > 0;
-//@before "Ok(edge_id)"
+//@atend
         proof {
             broadcast use vstd::seq_lib::group_to_multiset_ensures;
             self.lemma_edge_created(&*old(self), source, target, edge_id, popped);
@@ -485,7 +485,7 @@ impl GraphStore {
                 Self::lemma_insert_multiset(in_list@, pos as int, (source, edge_id));
                 if sorted_by_nbr(in_list@) { Self::lemma_insert_keeps_sorted(in_list@, pos as int, (source, edge_id)); }
             }
-//@before "Ok(edge_id)"
+//@atend
         proof {
             self.lemma_edge_created(&*old(self), source, target, edge_id, popped);
         }
@@ -531,7 +531,7 @@ impl GraphStore {
                 Self::lemma_insert_multiset(in_list@, pos as int, (source, edge_id));
                 if sorted_by_nbr(in_list@) { Self::lemma_insert_keeps_sorted(in_list@, pos as int, (source, edge_id)); }
             }
-//@before "Ok(edge_id)"
+//@atend
         proof {
             self.lemma_edge_created(&*old(self), source, target, edge_id, popped);
         }
